@@ -24,7 +24,7 @@ func init() {
 	Registry["C08"] = Spec{
 		Run: func(w *mon.Worker) { runRefcount(w, "C08") }, Workers: 16, GOMAXPROCS: 4,
 		QuickTimeout: 8 * time.Minute, ThoroughTimeout: 40 * time.Minute,
-		QuickFloor: 200, ThoroughFloor: 4000, CaseTimeout: 8 * time.Second,
+		QuickFloor: 1500, ThoroughFloor: 40000, CaseTimeout: 8 * time.Second,
 		RequiredCounters: []string{"release_funcs_checked_inside", "quiescent_release_audits", "stale_resolver_results", "final_all_released_audits", "RefCountLock"},
 		Rule: "each case runs 2-4 reference actors (AddRef with and without callback, Release, double Release), an invalidator calling released() of the newest value, a context changer (SetContext new/same, ClearContext, cancelling the root context behind the container's back) and consumers (Wait/Resolve/ResolveWithReleased/Access) against a resolver with scripted outcomes (value, error, error with release func, slow, returns a value after its context was cancelled), both keep-unreferenced settings; " +
 			"every release function counts itself and inspects the target container and the per-reference 'last callback' table from inside the call; at quiescence and after a final ClearContext the release counts are audited; non-trivial = at least one stale resolver result or one released() racing the last Release; distinct = distinct event orders",
@@ -33,7 +33,7 @@ func init() {
 	Registry["C09"] = Spec{
 		Run: func(w *mon.Worker) { runRefcount(w, "C09") }, Workers: 16, GOMAXPROCS: 4,
 		QuickTimeout: 8 * time.Minute, ThoroughTimeout: 40 * time.Minute,
-		QuickFloor: 200, ThoroughFloor: 4000, CaseTimeout: 8 * time.Second,
+		QuickFloor: 1500, ThoroughFloor: 40000, CaseTimeout: 8 * time.Second,
 		RequiredCounters: []string{"resolver_entries_checked", "quiescent_delivery_judgements", "restarts_inside_resolver_return", "addref_nil_callback_calls", "references_added_after_resolution", "gated_templates", "RefCountResolveStart"},
 		Rule: "same workload as C08 plus bursts of 2-5 restarts (SetContext / released()) while a resolver ignores cancellation, and a gated template holding resolver A in its return path; a resolver active counter is asserted at every entry; at quiescence with a live context and held references the newest resolver call's result must be in the target containers and be the last thing every held reference callback received; " +
 			"every API call must return (panics are caught, calls blocked at quiescence are violations), AddRef(nil) is issued in every state; non-trivial = at least two restarts inside one resolver's return latency, or a reference added after resolution; distinct = distinct event orders",
@@ -42,7 +42,7 @@ func init() {
 	Registry["C10"] = Spec{
 		Run: func(w *mon.Worker) { runRefcount(w, "C10") }, Workers: 16, GOMAXPROCS: 4,
 		QuickTimeout: 8 * time.Minute, ThoroughTimeout: 40 * time.Minute,
-		QuickFloor: 200, ThoroughFloor: 4000, CaseTimeout: 8 * time.Second,
+		QuickFloor: 1500, ThoroughFloor: 40000, CaseTimeout: 8 * time.Second,
 		RequiredCounters: []string{"consumer_returns_judged", "access_invocations", "access_returns_judged", "invalidations_inside_consumer_call", "released_callbacks_audited", "equal_replacement_cases"},
 		Rule: "same workload with 1-3 Access callers (callbacks returning at once, running until cancelled or until told) and 1-3 Wait/Resolve/ResolveWithReleased callers as the main actors, an invalidator, a context changer and other references coming and going, including resolvers that return an equal (==) value again; " +
 			"consumer holds are entered into the premature-release table between return and release; Access results are judged against the release stamps that fall inside the callback invocation; at quiescence blocked invocations on invalidated values and missing re-invocations are violations; " +
@@ -280,7 +280,7 @@ func (w *rfWorld) genOf(v *rfVal) *rfGen {
 
 func runRefcount(w *mon.Worker, prop string) {
 	mon.SetMaxSleep(120 * time.Microsecond)
-	n := w.Share(w.Scale(1600, 60000))
+	n := w.Share(w.Scale(12000, 300000))
 	for i := 0; i < n; i++ {
 		mon.SetProb(0.15, verifhook.RefCountLock, verifhook.RefCountResolveStart, verifhook.RefCountResolveCall, verifhook.RefCountResolveDone, verifhook.BcastEnter, verifhook.BcastExit)
 		mon.SetProb(0.3, verifhook.PromiseSetMid)
@@ -289,7 +289,7 @@ func runRefcount(w *mon.Worker, prop string) {
 	}
 	mon.ClearProb()
 	if prop == "C09" {
-		for i := 0; i < w.Share(w.Scale(160, 5000)); i++ {
+		for i := 0; i < w.Share(w.Scale(800, 20000)); i++ {
 			w.Case("gated-resolver", nil, rfGatedCase)
 		}
 	}
